@@ -17,7 +17,7 @@ CHECKER = "c07_checker"
 CASE_TYPE = "c07_case"
 SHARD = 120
 
-RULE = ("case = (one fiber of depth 1-2 over coordinates 0..8 with absent / explicit-default / value "
+RULE = ("case = (one fiber of depth 1-2 over coordinates -4..8 with absent / explicit-default / value "
         "elements (empty sub-fibers at depth 2), leaf default 0 or 3 (then 0 is a value), shape "
         "None/fitting/arbitrary, active range None/arbitrary incl. empty and inverted, format C/U; up to "
         "two more fibers for co-iteration; 6-10 operations each run on a fresh copy: "
@@ -47,6 +47,7 @@ EXPLANATION = ("theorems: each traversal of the faithful model = the declarative
                "c07_spec is that declarative slice evaluated against the implementation's yields")
 
 MAXC = 8
+MINC = -4     # stored coordinates range over MINC..MAXC (negative ones are legal: halos, c -> c-k projections)
 
 
 # ------------------------------------------------------------------ generators (pure)
@@ -69,16 +70,17 @@ def gen_es(rng, d, depth):
     p_absent = rng.choice([0.0, 0.2, 0.5, 0.5, 0.8, 0.95])
     p_dflt = rng.choice([0.0, 0.15, 0.4, 0.4, 1.0])
     n = rng.choice([3, 5, MAXC])
+    lo0 = rng.choice([0, 0, MINC, MINC, -2, -1])
     if depth == 1:
-        return gen_leaf_fiber(rng, d, p_absent, p_dflt, 0, n)
+        return gen_leaf_fiber(rng, d, p_absent, p_dflt, lo0, n)
     es = []
-    for c in range(0, n + 1):
+    for c in range(lo0, n + 1):
         if rng.random() < p_absent:
             continue
         if rng.random() < p_dflt:
             es.append([c, rng.choice([[], [[1, d]], [[0, d], [2, d]]])])
         else:
-            es.append([c, gen_leaf_fiber(rng, d, 0.5, 0.2, 0, 3)])
+            es.append([c, gen_leaf_fiber(rng, d, 0.5, 0.2, rng.choice([0, -2]), 3)])
     return es
 
 
@@ -112,7 +114,7 @@ def active_of(case):
 
 
 def gen_bound(rng):
-    return rng.choice([None, rng.randint(-2, MAXC + 3)])
+    return rng.choice([None, 0, rng.randint(MINC - 1, MAXC + 3), rng.randint(MINC - 1, MAXC + 3)])
 
 
 def gen_op(rng, case, kind=None):
@@ -136,16 +138,16 @@ def gen_op(rng, case, kind=None):
     if kind in ("shape", "ashape", "coshape", "coashape"):
         return {"op": kind, "ref": rng.random() < 0.5}
     if kind in ("rshape", "corshape"):
-        lo = rng.randint(-2, MAXC + 1)
-        hi = rng.choice([lo, lo - 2, rng.randint(-2, MAXC + 4), rng.randint(lo, MAXC + 4)])
+        lo = rng.choice([0, rng.randint(MINC - 1, MAXC + 1)])
+        hi = rng.choice([lo, lo - 2, rng.randint(MINC - 1, MAXC + 4), rng.randint(lo, MAXC + 4)])
         return {"op": kind, "lo": lo, "hi": hi, "step": rng.choice([1, 1, 2, 3]), "ref": rng.random() < 0.5}
     if kind == "project":
         k = rng.choice([-3, -2, -1, -1, 1, 1, 2, 3])
-        b = rng.randint(-5, 5)
+        b = rng.randint(-7, 5)
         iv = None
         if rng.random() < 0.6:
-            imgs = sorted(k * c + b for c in range(0, MAXC + 1))
-            lo = rng.randint(imgs[0] - 2, imgs[-1] + 2)
+            imgs = sorted(k * c + b for c in range(MINC, MAXC + 1))
+            lo = rng.choice([0, rng.randint(imgs[0] - 2, imgs[-1] + 2)])
             hi = rng.choice([lo, lo - 1, rng.randint(lo, imgs[-1] + 3)])
             iv = [lo, hi]
         sp = None
@@ -170,11 +172,11 @@ def gen_case(rng, depth=None, zero_only=False, nops=None, kinds=None):
     depth = depth or rng.choice([1, 1, 1, 2])
     es = gen_es(rng, d, depth)
     if zero_only:
-        es = [[c, d] for c, _ in gen_leaf_fiber(rng, d, 0.5, 1.0)] or [[2, d]]
-    shape = rng.choice([None, None, est_shape(es), rng.randint(0, MAXC + 3)])
+        es = [[c, d] for c, _ in gen_leaf_fiber(rng, d, 0.5, 1.0, rng.choice([0, MINC]))] or [[2, d]]
+    shape = rng.choice([None, None, est_shape(es), rng.randint(0, MAXC + 3), rng.randint(MINC, MAXC + 3)])
     active = None
     if rng.random() < 0.35:
-        a0 = rng.randint(-1, MAXC)
+        a0 = rng.choice([0, rng.randint(MINC - 1, MAXC)])
         active = [a0, rng.choice([a0, a0 - 1, rng.randint(a0, MAXC + 3)])]
     case = {"es": es, "d": d, "shape": shape, "active": active, "fmtU": rng.random() < 0.3,
             "others": [gen_es(rng, d, depth) for _ in range(rng.choice([0, 1, 1, 2]))]}
@@ -192,7 +194,7 @@ def streams(tier, rng):
     yield ("lazy", [gen_case(rng, kinds=["project", "project", "prune"]) for _ in range(250 if not big else 4000)], False)
     yield ("boundary", boundary_cases(rng, 120 if not big else 1500), False)
     if big:
-        yield ("exhaustive-0..3", exhaustive_cases(), True)
+        yield ("exhaustive-4coords", exhaustive_cases(), True)
 
 
 def boundary_cases(rng, n):
@@ -202,7 +204,7 @@ def boundary_cases(rng, n):
         es, d = c["es"], c["d"]
         ops = []
         last = len(es) - 1
-        for lo in (None, 0, es[0][0] if es else 1, es[-1][0] if es else 2):
+        for lo in (None, 0, es[0][0] if es else 1, es[-1][0] if es else 2, -1):
             for hi in (lo, None, (es[-1][0] + 1) if es else 3, MAXC + 5):
                 sps = [None] + legal_sps(es, d, lambda x: lo is not None and x < lo)
                 ops.append({"op": "range", "lo": lo, "hi": hi, "sp": sps[-1]})
@@ -221,16 +223,16 @@ def boundary_cases(rng, n):
 
 
 def exhaustive_cases():
-    """every leaf fiber over coordinates 0..3 (absent / explicit default / value per coordinate), both
+    """every leaf fiber over coordinates 0..3 and over -2..1 (absent / explicit default / value per coordinate), both
     formats, with a fixed battery of operations incl. every legal start_pos"""
     out = []
-    for pat in itertools.product([None, 0, 4], repeat=4):
-        es = [[c, v] for c, v in enumerate(pat) if v is not None]
+    for pat, off in itertools.product(itertools.product([None, 0, 4], repeat=4), (0, -2)):
+        es = [[c + off, v] for c, v in enumerate(pat) if v is not None]
         for fmtU in (False, True):
             case = {"es": es, "d": 0, "shape": None, "active": None, "fmtU": fmtU, "others": [[[1, 2]]]}
             ops = [{"op": "iter", "sp": None}, {"op": "shape", "ref": False}, {"op": "shape", "ref": True},
                    {"op": "coashape", "ref": True}]
-            for lo, hi in [(None, None), (1, 3), (2, 2), (0, 9), (3, 1)]:
+            for lo, hi in [(None, None), (1, 3), (2, 2), (0, 9), (3, 1), (0, 0), (0, 2), (-1, 2)]:
                 for sp in [None] + legal_sps(es, 0, lambda c: lo is not None and c < lo):
                     ops.append({"op": "range", "lo": lo, "hi": hi, "sp": sp})
             for k, b in [(1, 0), (2, 1), (-1, 3), (-2, 0)]:
